@@ -75,7 +75,7 @@ func GenNameVariant(m *Model) (from, to *Model, ok bool) {
 		for ii, idx := range t.Indexes {
 			plain := idx.Type == "" && idx.Where == "" && len(idx.Include) == 0 && idx.Comment == "" && !idx.NullsNotDist && idx.Parser == ""
 			for _, p := range idx.Parts {
-				plain = plain && p.Col != "" && p.Prefix == 0 && p.NullsFirst == nil
+				plain = plain && p.Col != "" && p.Prefix == 0 && p.NullsFirst == nil && p.Ops == ""
 			}
 			if !plain || m.Dialect != MySQL && !idx.Unique {
 				continue
